@@ -20,6 +20,14 @@ pub mod time {
         pub uninterp spec fn ns(&self) -> int;
         #[verifier::external_body]
         pub fn hours(h: i64) -> (r: Duration) ensures r.ns() == h * 3_600_000_000_000 { unimplemented!() }
+        #[verifier::external_body]
+        pub fn minutes(m: i64) -> (r: Duration) ensures r.ns() == m * 60_000_000_000 { unimplemented!() }
+        #[verifier::external_body]
+        pub fn seconds(s: i64) -> (r: Duration) ensures r.ns() == s * 1_000_000_000 { unimplemented!() }
+        #[verifier::external_body]
+        pub fn days(d: i64) -> (r: Duration) ensures r.ns() == d * 86_400_000_000_000 { unimplemented!() }
+        #[verifier::external_body]
+        pub fn milliseconds(m: i64) -> (r: Duration) ensures r.ns() == m * 1_000_000 { unimplemented!() }
     }
     impl OffsetDateTime {
         pub uninterp spec fn instant(&self) -> int;
@@ -43,12 +51,23 @@ pub mod time {
     impl core::ops::Add<Duration> for OffsetDateTime {
         type Output = OffsetDateTime;
         #[verifier::external_body]
+        // `OffsetDateTime + Duration` PANICS when the result leaves the representable range: that is its precondition here
         fn add(self, d: Duration) -> (r: OffsetDateTime) ensures r.instant() == self.instant() + d.ns() { unimplemented!() }
     }
     impl vstd::std_specs::ops::AddSpecImpl<Duration> for OffsetDateTime {
         open spec fn obeys_add_spec() -> bool { false }
-        open spec fn add_req(self, rhs: Duration) -> bool { true }
+        open spec fn add_req(self, rhs: Duration) -> bool { formattable(self.instant() + rhs.ns()) }
         uninterp spec fn add_spec(self, rhs: Duration) -> OffsetDateTime;
+    }
+    impl core::ops::Sub<Duration> for OffsetDateTime {
+        type Output = OffsetDateTime;
+        #[verifier::external_body]
+        fn sub(self, d: Duration) -> (r: OffsetDateTime) ensures r.instant() == self.instant() - d.ns() { unimplemented!() }
+    }
+    impl vstd::std_specs::ops::SubSpecImpl<Duration> for OffsetDateTime {
+        open spec fn obeys_sub_spec() -> bool { false }
+        open spec fn sub_req(self, rhs: Duration) -> bool { formattable(self.instant() - rhs.ns()) }
+        uninterp spec fn sub_spec(self, rhs: Duration) -> OffsetDateTime;
     }
     pub mod format_description { pub mod well_known { pub struct Rfc3339; } }
     pub mod error {
